@@ -77,6 +77,37 @@ fn run_case(c: &Case) -> CaseOut {
                     oracle_failures.push("lex: end-of-file token has content".to_string());
                 }
             }
+            // tokens built from the lexical rules (`tokfam`): the scan must give exactly these tokens with these classes
+            if c.family == "tokfam" && !c.texts.is_empty() {
+                let real: Vec<&RawToken> = toks.iter().filter(|t| !matches!(t.get_token_type(), RawTokenType::Eof)).collect();
+                if real.len() != c.texts.len() {
+                    oracle_failures.push(format!("lex: {} tokens built from the lexical rules scan as {} tokens", c.texts.len(), real.len()));
+                } else {
+                    for (t, e) in real.iter().zip(c.texts.iter()) {
+                        let (class, text) = e.split_once('\u{1}').unwrap();
+                        let k = t.get_token_type();
+                        let class_ok = match class {
+                            "ident" => matches!(k, RawTokenType::Identifier | RawTokenType::IdentifierOrKeyword(_)),
+                            "kw" => matches!(k, RawTokenType::Keyword(_) | RawTokenType::IdentifierOrKeyword(_)),
+                            "num" => matches!(k, RawTokenType::NumberLiteral(_)),
+                            "text" => matches!(k, RawTokenType::TextLiteral(x) if x != TextLiteralKind::Unterminated),
+                            "comment" => matches!(k, RawTokenType::Comment(_)),
+                            "dir" => matches!(k, RawTokenType::CompilerDirective),
+                            "op" => matches!(k, RawTokenType::Op(_)),
+                            c if c.starts_with("cdir:") => format!("{:?}", k) == format!("ConditionalDirective({})", &c[5..]),
+                            _ => true,
+                        };
+                        if t.get_content() != text {
+                            oracle_failures.push(format!("lex: the {} token {:?} is scanned as {:?}", class, text, t.get_content()));
+                            break;
+                        }
+                        if !class_ok {
+                            oracle_failures.push(format!("lex: the {} token {:?} is scanned with kind {:?}", class, text, k));
+                            break;
+                        }
+                    }
+                }
+            }
             // independent oracles for the boundary clauses: (a) both identifier routines agree at every
             // identifier start (hook), (b) position/length independence: an identifier, keyword or number
             // scanned on its own (followed by a blank) is one token of the same length, and contains no blank
@@ -496,7 +527,7 @@ fn gen_inputs(family: &str, rng: &mut Rng, n: usize, seeds: &[String]) -> Vec<St
     v
 }
 
-fn corpus_inputs(stream: &str, only: &str) -> Vec<(String, Cfg)> {
+fn corpus_inputs(stream: &str, only: &str) -> Vec<(String, Cfg, bool)> {
     // minimised past failures, run first: corpus/<stream>.txt, lines "cfg<TAB>hex"; `only` = a replay file in the same format
     let p = if only.is_empty() {
         std::env::var("VERIF_ROOT").unwrap_or_else(|_| "/verif".to_string()) + "/corpus/" + stream + ".txt"
@@ -513,7 +544,8 @@ fn corpus_inputs(stream: &str, only: &str) -> Vec<(String, Cfg)> {
             if let (Some(c), Some(h)) = (it.next(), it.next()) {
                 if let (Some(cfg), Some(b)) = (Cfg::from_proto(c), proto::unhex(h)) {
                     if let Ok(s) = String::from_utf8(b) {
-                        v.push((s, cfg));
+                        // optional third column: `wf` = a well-formed program (the oracles restricted to those run too)
+                        v.push((s, cfg, it.next().map_or(false, |x| x.trim() == "wf")));
                     }
                 }
             }
@@ -673,13 +705,21 @@ fn cmd_emit(a: &Args) {
     let mut rng = Rng::new(seed);
     let mut cases: Vec<Case> = vec![];
     let only = a.get("only_corpus", "");
-    for (input, cfg) in corpus_inputs(&stream, &only) {
+    for (input, cfg, line_wf) in corpus_inputs(&stream, &only) {
         let cursors: Vec<u32> = a.get("replay_cursors", "").split(',').filter_map(|x| x.trim().parse().ok()).collect();
-        let wf = a.get("replay_well_formed", "0") == "1";
+        let wf = line_wf || a.get("replay_well_formed", "0") == "1";
         cases.push(Case { stream: stream.clone(), family: a.get("replay_family", "corpus"), input, cfg, cursors, oracles: oracle_list.clone(), well_formed: wf, w2: a.num("replay_w2", 80) as u32, input2: None, marks: vec![], texts: vec![] });
     }
     let per = if only.is_empty() { (count + families.len() - 1) / families.len().max(1) } else { 0 };
     for fam in &families {
+        if fam == "tokfam" {
+            let mut r = rng.fork();
+            for _ in 0..per {
+                let (input, texts) = tok_family_case(&mut r);
+                cases.push(Case { stream: stream.clone(), family: fam.clone(), input, cfg: Cfg::default(), cursors: vec![], oracles: oracle_list.clone(), well_formed: false, w2: 80, input2: None, marks: vec![], texts });
+            }
+            continue;
+        }
         if fam == "relayout" || fam == "marked" {
             let mut r = rng.fork();
             for _ in 0..per {
